@@ -307,6 +307,8 @@ def run(ctx):
     rule_assembly(ctx, r1)
     r3 = ctx.rule("R3", "log paths written by the schedulers / the local pool are the ones `gwf logs` reads; log modes", min_instances=7)
     rule_log_paths(ctx, r3)
+    from .shared import rule_factory_default
+    rule_factory_default(ctx, r3, "gwf.backends.slurm:create_backend", "log_mode", "full", "with the default configuration stderr would not go to <target>.stderr where `gwf logs -e` reads it")
     r4 = ctx.rule("R4", "every supported option becomes exactly one directive with the documented flag; omitted options leave no trace", min_instances=15)
     rule_options(ctx, r4)
     r5 = ctx.rule("R5", "option resolution: backend default < workflow default < template < per-target; None omitted; unknown dropped with a warning", min_instances=5)
